@@ -1,6 +1,6 @@
 #!/bin/bash
 # usage: tools/run_all.sh <tier> [seed] [ids...]   — runs checks in sequence, prints one line per check
-cd /verif || exit 1
+cd "$(dirname "$0")/.." || exit 1
 tier=${1:-quick}; seed=${2:-1}; shift 2 2>/dev/null
 ids="$@"; [ -z "$ids" ] && ids=$(cat tools/built.txt)
 for id in $ids; do
